@@ -119,16 +119,27 @@ func reqBytes(r role, id uint16, serial int) []byte {
 	panic("role")
 }
 
+// ackBytes: the acknowledgement's length depends on serial too (a SUBACK has
+// 1-4 return codes, the others sometimes a remaining length with a padding
+// byte, which the decoders accept), so that a repeated acknowledgement of one
+// request can be shorter or longer than the one before.
 func ackBytes(t message.Type, id uint16, serial int) []byte {
 	pid := []byte{byte(id >> 8), byte(id)}
+	first := byte(t) << 4
 	switch t {
 	case message.PUBREL:
-		return pkt(0x62, pid)
+		first = 0x62
 	case message.SUBACK:
-		return pkt(0x90, append(pid, byte(serial%3)))
-	default:
-		return pkt(byte(t)<<4, pid)
+		body := append([]byte{}, pid...)
+		for i := 0; i <= serial%4; i++ {
+			body = append(body, byte((serial+i)%3))
+		}
+		return pkt(0x90, body)
 	}
+	if serial%5 == 0 {
+		return append([]byte{first, 0x82, 0x00}, pid...) // remaining length 2 in two bytes
+	}
+	return pkt(first, pid)
 }
 
 // buildReq makes the library message. viaSetters selects the API path; the
@@ -212,6 +223,7 @@ type model struct {
 	capacity, head int
 	grewWrapped    bool
 	hol            bool
+	refused        bool // a registration was refused (request that cannot be encoded)
 }
 
 func (m *model) find(id uint16) *entry {
@@ -237,7 +249,7 @@ func (m *model) terminal(e *entry) bool { return e.step == len(m.r.steps) }
 
 // Op is one operation of a history (JSON form is the replay format).
 type Op struct {
-	K  string `json:"k"`  // wait | ack | dup | unknown | acked
+	K  string `json:"k"`  // wait | badwait | ack | dup | unknown | acked
 	ID uint16 `json:"id"` // identifier (wait/ack/dup)
 }
 
@@ -342,6 +354,37 @@ func run(c Case) (fail string, hol, grewWrapped bool) {
 				tags[serial] = tg
 				m.list = append(m.list, &entry{id: op.ID, req: want, tag: serial, state: message.RESERVED})
 			}
+		case "badwait":
+			// a request that cannot be encoded (no topic) is refused; whatever Wait
+			// returns, the queue is as it was: the identifier is not in use
+			// afterwards, and registering it later works
+			if m.find(op.ID) != nil {
+				break
+			}
+			var bad message.Message
+			switch r.req {
+			case message.PUBLISH:
+				pm := message.NewPublishMessage()
+				pm.SetQoS(1)
+				if r.Name != "Pub1ack" {
+					pm.SetQoS(2)
+				}
+				pm.SetPacketID(op.ID)
+				bad = pm
+			case message.SUBSCRIBE:
+				sm := message.NewSubscribeMessage()
+				sm.SetPacketID(op.ID)
+				bad = sm
+			default:
+				um := message.NewUnsubscribeMessage()
+				um.SetPacketID(op.ID)
+				bad = um
+			}
+			if buf := make([]byte, 64); func() error { _, err := bad.Encode(buf); return err }() == nil {
+				break // the library can encode it after all: nothing to refuse
+			}
+			q.Wait(bad, &cbTag{-1})
+			m.refused = true
 		case "ack":
 			e := m.find(op.ID)
 			if e == nil { // unknown id: must change nothing
@@ -630,6 +673,13 @@ func genCase(t *rapid.T) Case {
 			}
 			if rapid.IntRange(0, 30).Draw(t, "dupwait") == 0 && len(inflight) > 0 {
 				id = inflight[rapid.IntRange(0, len(inflight)-1).Draw(t, "dw")].id
+			}
+			if rapid.IntRange(0, 25).Draw(t, "badwait") == 0 {
+				// a refused registration of this identifier first, sometimes acknowledged in vain
+				ops = append(ops, Op{"badwait", id})
+				if rapid.Bool().Draw(t, "ack-refused") {
+					ops = append(ops, Op{"ack", id})
+				}
 			}
 			ops = append(ops, Op{"wait", id})
 			found := false
